@@ -56,7 +56,11 @@ RULE = ('seeded rotationally symmetric lenses (planes, spheres, conics, a share 
         'both distortion types, odd and even grids; non-trivial = lens on which every analysis produced finite, non-constant output. '
         'About a third of the refracting lenses have a curved image surface; every query is repeated and .data re-read after the radius queries. '
         'Lens classes: refracting, single mirror, three mirrors, lens + mirror (odd mirror counts: light reaches the image travelling to -z, image '
-        'defocused from both astigmatic foci); field-list classes: ascending, reordered, all negative, largest magnitude negative, mixed.')
+        'defocused from both astigmatic foci); field-list classes: ascending, reordered, all negative, largest magnitude negative, mixed. '
+        'Construction routes: direct, stop re-declared by an iris handed over as a Surface object, surfaces as objects, reused Optic, to_dict/from_dict, '
+        'ImageSurface object; the stop index and the prescription are taken from the generated spec, never from the object. Every named pupil '
+        'distribution is compared with its documented samples and used for a spot recomputation on every lens; the first 6 lenses of every oracle sweep '
+        'are a fixed corpus (independent of VERIF_SEED).')
 PARTIAL = ['Coddington agreement of the field-curvature data is checked numerically (independent trace), the theorem covers the finite-delta crossing algebra',
            'blocked rays (intensity 0) are counted in centroid / RMS / geometric radius exactly as the implementation does (documented behaviour); '
            'failed rays (NaN) are ignored (theorems C12_nanmean_skip / C12_centroid_ignores_failed_ray hold for every arithmetic instance)',
@@ -296,11 +300,15 @@ Definition fan_xy (l : list (list (fan FOps))) : list float :=
 ''' % TOL
 
 
-# every class of lens / field list appears in the first dozen lenses of a sweep; later lenses cycle through the products
-CLASS_PLAN = [('refracting', 'ascending'), ('mirror1', 'largest_negative'), ('refracting', 'all_negative'),
-              ('refracting', 'reordered'), ('mirror3', 'ascending'), ('refracting', 'largest_negative'),
-              ('catadioptric1', 'all_negative'), ('refracting', 'mixed_largest_positive'), ('refracting', 'ascending'),
-              ('mirror1', 'reordered'), ('refracting', 'all_negative'), ('mirror3', 'largest_negative')]
+# every class of lens / field list / construction route appears in the first dozen lenses of a sweep; later lenses cycle
+# through the products.  Routes: how the prescription reaches the Optic object (c12_impl.ROUTES).
+CLASS_PLAN = [('refracting', 'ascending', 'iris_object'), ('mirror1', 'largest_negative', 'direct'), ('refracting', 'all_negative', 'handbuilt'),
+              ('refracting', 'reordered', 'reuse'), ('mirror3', 'ascending', 'direct'), ('refracting', 'largest_negative', 'roundtrip'),
+              ('catadioptric1', 'all_negative', 'iris_object'), ('refracting', 'mixed_largest_positive', 'image_object'),
+              ('refracting', 'ascending', 'direct'), ('mirror1', 'reordered', 'roundtrip'), ('refracting', 'all_negative', 'iris_object'),
+              ('mirror3', 'largest_negative', 'direct')]
+CORPUS_SEED = 777            # the first lenses of every oracle sweep are the SAME for every VERIF_SEED (fixed corpus)
+CORPUS = 6
 
 
 def _classes(k):
@@ -309,21 +317,25 @@ def _classes(k):
         return CLASS_PLAN[k]
     j = k - len(CLASS_PLAN)
     lc = ('refracting', 'refracting', 'mirror1', 'refracting', 'mirror3', 'refracting', 'catadioptric1')[j % 7]
-    return lc, C.FIELD_CLASSES[(j // 7 + j) % len(C.FIELD_CLASSES)]
+    return lc, C.FIELD_CLASSES[(j // 7 + j) % len(C.FIELD_CLASSES)], C.ROUTES[(j // 3 + j) % len(C.ROUTES)]
 
 
-def _lens(ctx, salt, k, planned=False, **kw):
+def _lens(ctx, salt, k, planned=False, fixed=False, **kw):
     import lensgen
     import c12_impl as C
-    rng = random.Random(ctx.seed * 7919 + salt * 101 + k)
+    rng = random.Random((CORPUS_SEED if fixed else ctx.seed) * 7919 + salt * 101 + k)
+    route = 'direct'
     if planned:
-        kw['lens_class'], kw['field_class'] = _classes(k)
+        kw['lens_class'], kw['field_class'], route = _classes(k)
         kw['clip'] = bool((k + salt) % 2)          # every other lens carries an aperture that clips the edge of the beam
     spec = C.c12_spec(rng, **kw)
+    if spec.get('image_solve_defocus') is not None and route in ('handbuilt', 'reuse', 'roundtrip', 'image_object'):
+        route = 'direct'                           # the solved image distance is not part of the entered prescription
     try:
-        o = C.build(spec)
+        o = C.build(spec, route=route, rng=rng)
         o.paraxial.EPL()
     except Exception as e:   # noqa
+        spec['build_error'] = f'{type(e).__name__}: {e}'
         return None, spec, rng
     return o, spec, rng
 
@@ -428,7 +440,7 @@ def _model_cases(ctx, nl):
             n = np0 + 1 if np0 % 2 == 0 else np0
             P = np.linspace(-1, 1, n)
             a = PupilAberration(o, fields=F, wavelengths=W, num_points=np0)
-            stop = o.surface_group.stop_index
+            stop = C.expected_stop(spec)          # from the generated prescription, not from the object
             dpar = float(C.paraxial_y(o, 0.0, 1.0, wp, stop)[0])
             par = C.paraxial_y(o, 0.0, P, wp, stop)
             f, w = F[-1], W[0]
@@ -589,31 +601,45 @@ def _run_bodies(tag, imports, helpers, bodies, labels):
 def _oracle_sweep(ctx, nl, salt=3, level=1, stop_after=None):
     import lensgen
     import c12_impl as C
-    viol, hist = [], {'lenses': 0, 'build_failures': 0, 'analyses': 0, 'coddington_samples': 0, 'field_types': {}, 'violations_by_kind': {}}
+    viol, hist = [], {'lenses': 0, 'build_failures': 0, 'analyses': 0, 'coddington_samples': 0, 'field_types': {}, 'violations_by_kind': {},
+                      'classes': {}, 'routes': {}, 'distributions': list(C.DISTRIBUTIONS), 'fixed_corpus_lenses': 0, 'build_errors': {}}
     clean = 0
-    for k in range(nl):
-        o, spec, rng = _lens(ctx, salt, k, planned=True)
+
+    def note(r, spec=None, k=None, o=None):
+        r['violates_property'] = True
+        if spec is not None:
+            r['spec'] = spec
+            r['lens'] = k
+            r['stop_index'] = C.expected_stop(spec)
+            r['object_infinite'] = bool(o.object_surface.is_infinite)
+        key = r['analysis'].split('/')[0] + ':' + r['kind']
+        hist['violations_by_kind'][key] = hist['violations_by_kind'].get(key, 0) + 1
+        viol.append(r)
+    # the named pupil distributions against their documented samples (independent of any lens)
+    for r in C.check_distributions():
+        note(r)
+    hist['analyses'] += 1
+    plan = [(k, True) for k in range(min(CORPUS, nl))] + [(k, False) for k in range(nl)]
+    for k, fixed in plan:
+        o, spec, rng = _lens(ctx, salt if not fixed else 3, k, planned=True, fixed=fixed)
         if o is None:
             hist['build_failures'] += 1
+            be = spec.get('build_error', '?')[:80]
+            hist['build_errors'][be] = hist['build_errors'].get(be, 0) + 1
             continue
         hist['lenses'] += 1
+        hist['fixed_corpus_lenses'] += int(fixed)
         hist['field_types'][spec['field_type']] = hist['field_types'].get(spec['field_type'], 0) + 1
         ck = spec.get('lens_class', '?') + '/' + spec.get('field_class', '?')
-        hist.setdefault('classes', {})[ck] = hist.get('classes', {}).get(ck, 0) + 1
+        hist['classes'][ck] = hist['classes'].get(ck, 0) + 1
+        hist['routes'][spec.get('route', '?')] = hist['routes'].get(spec.get('route', '?'), 0) + 1
         res, cnt = C.oracle_lens(o, spec, rng, level=level)
         hist['analyses'] += sum(v for kk, v in cnt.items() if kk != 'coddington_samples')
         hist['coddington_samples'] += cnt.get('coddington_samples', 0)
         if not res:
             clean += 1
         for r in res:
-            r['spec'] = spec
-            r['lens'] = k
-            r['violates_property'] = True
-            r['stop_index'] = int(o.surface_group.stop_index)
-            r['object_infinite'] = bool(o.object_surface.is_infinite)
-            key = r['analysis'].split('/')[0] + ':' + r['kind']
-            hist['violations_by_kind'][key] = hist['violations_by_kind'].get(key, 0) + 1
-            viol.append(r)
+            note(r, spec, k, o)
         if stop_after and len(viol) >= stop_after:
             break
     hist['clean_lenses'] = clean
@@ -644,7 +670,7 @@ def system_checks(ctx):
     # (c) FIRST: the property stated directly on the implementation (independent recomputation incl. Coddington); it does not
     # need the Coq side, so its verdict is reported even when a proof or the model no longer builds
     try:
-        viol, hist = _oracle_sweep(ctx, ctx.n(12, 150), level=0 if ctx.quick() else 1)
+        viol, hist = _oracle_sweep(ctx, ctx.n(8, 150), level=0 if ctx.quick() else 1)
         known = vlib.load_known_findings(PROP)
         yield {'name': 'independent-recomputation-oracle', 'n': hist['analyses'], 'nontrivial': hist['clean_lenses'] + len(viol),
                'histogram': hist, 'samples': [{'coddington_samples_compared': hist['coddington_samples']}],
